@@ -168,6 +168,26 @@ impl Prop for C18 {
                         }
                     }
                 }
+                // path 3b: clap with edge-case value texts: whatever is accepted must be a non-zero duration, and parsing must not panic
+                for flag in ["--read-timeout", "--write-timeout", "--connect-timeout"] {
+                    for text in ["0", "00", "+0", "-0", "0.0", "0.0000000001", "1e-12", "0.9", "1.5", "1e3", "1e20", "1e400", "inf", "nan", "18446744073709551615", "18446744073709551616", "99999999999999999999999", " 1", "1 ", "", "0x10", "१"] {
+                        ctx.counters.evaluations += 1;
+                        ctx.counters.states += 1;
+                        let args = vec!["prog".to_string(), format!("{flag}={text}")];
+                        let res = run_pure(|| CliLike::try_parse_from(args.clone()));
+                        ctx.distinct_key(&(flag, text, res.as_ref().map(|x| x.is_ok()).unwrap_or(false)));
+                        match res {
+                            Ok(Ok(c)) => {
+                                let t = c.timeouts;
+                                if [t.get_read(), t.get_write(), t.get_connect()].iter().any(|d| matches!(d, Some(d) if d.is_zero())) {
+                                    ctx.violation("zero-duration-accepted:clap", &[], format!("{flag}={text:?}"), format!("{t:?}"), "a clap error or a non-zero duration", vec![]);
+                                }
+                            }
+                            Ok(Err(_)) => {}
+                            Err((msg, loc)) => ctx.violation("construction-panics:clap", &[], format!("{flag}={text:?}"), format!("PANIC at {loc}: {msg}"), "a clap error", vec![]),
+                        }
+                    }
+                }
                 // path 4: Default
                 let d = TimeoutSettings::default();
                 if [d.get_read(), d.get_write(), d.get_connect()].iter().any(|x| matches!(x, Some(x) if x.is_zero())) {
